@@ -4,6 +4,7 @@
     correspondence check on every run). *)
 From QV Require Import Lib.Tac Lib.Bytes Lib.Corr Model.Varint Model.PacketNumber Model.Frames
   Proofs.VarintProofs Proofs.PnProofs Proofs.FramesProofs Proofs.FramesTotal Proofs.FramesIter.
+From QV Require Model.Header Proofs.HeaderProofs.
 Open Scope Z_scope.
 
 (** Every encodable value round-trips, with arbitrary trailing bytes left untouched. *)
@@ -171,3 +172,44 @@ Proof. vm_compute. split; reflexivity. Qed.
 Example C10_decode_error_example :
   decode_out [1; 2; 5; 0; 0; 9] = Some [0; 1; -1; 3; 2] /\ decode_out [] = Some [1].
 Proof. vm_compute. split; reflexivity. Qed.
+
+(** * Packet headers (Model/Header.v: [Header::encode], [PartialEncode::finish],
+    [ProtectedHeader::decode], [PartialDecode::new] / [finish]; plaintext headers) *)
+
+(** Every well-formed header (relative to the receiver's local CID length, supported versions and
+    grease bit) with a payload of admissible size encodes, and decoding the packet followed by
+    arbitrary trailing bytes returns the same header, header length and payload length. Initial /
+    Handshake / 0-RTT packets end exactly at their encoded Length; Retry, Short and Version
+    Negotiation packets extend to the end of the datagram. *)
+Theorem C10_header_roundtrip : forall lcl grease versions h payload rest,
+  Header.wf_header lcl grease versions h = true -> Header.size_ok h payload = true ->
+  exists hl pk, Header.encode_packet h payload = Some (hl, pk) /\
+    Header.decode_packet lcl grease versions (pk ++ rest) =
+    Header.expected_decode h hl pk payload rest.
+Proof. exact HeaderProofs.header_roundtrip. Qed.
+Print Assumptions C10_header_roundtrip.
+
+(** Coalesced packets split at exactly the encoded boundary: the packet length reported is the
+    offset of the end of the Length field plus the encoded Length, which is the length of the
+    encoded packet; the first packet is [pk] and the remainder handed back is [rest], untouched. *)
+Theorem C10_coalesced_split_exact : forall lcl grease versions h payload rest,
+  Header.wf_header lcl grease versions h = true -> Header.size_ok h payload = true ->
+  Header.has_length h = true ->
+  exists hl pk, Header.encode_packet h payload = Some (hl, pk) /\
+    exists hl' pl ok h',
+      Header.decode_packet lcl grease versions (pk ++ rest) =
+        Header.DOk (zlen pk) (if zlen rest =? 0 then -1 else zlen rest)
+                   (Header.pnl_of h + zlen payload) hl' pl ok h' /\
+      zlen pk = (hl - Header.pnl_of h) + (Header.pnl_of h + zlen payload) /\
+      firstn (Z.to_nat (zlen pk)) (pk ++ rest) = pk /\ skipn (Z.to_nat (zlen pk)) (pk ++ rest) = rest.
+Proof. exact HeaderProofs.coalesced_split_exact. Qed.
+Print Assumptions C10_coalesced_split_exact.
+
+Example C10_header_example :
+  Header.wf_header 8 false [1] (Header.HInitial 1 [6; 184; 88; 236; 111; 128; 69; 43] [] [] 1 0) = true /\
+  Header.encode_packet (Header.HInitial 1 [6; 184; 88; 236; 111; 128; 69; 43] [] [] 1 0) [9; 9; 9] =
+    Some (19, [192; 0; 0; 0; 1; 8; 6; 184; 88; 236; 111; 128; 69; 43; 0; 0; 64; 4; 0; 9; 9; 9]) /\
+  Header.decode_packet 8 false [1]
+    ([192; 0; 0; 0; 1; 8; 6; 184; 88; 236; 111; 128; 69; 43; 0; 0; 64; 4; 0; 9; 9; 9] ++ [77; 1; 2; 3; 4; 5; 6; 7; 8; 0; 1; 2; 3]) =
+    Header.DOk 22 13 4 19 3 true (Header.HInitial 1 [6; 184; 88; 236; 111; 128; 69; 43] [] [] 1 0).
+Proof. vm_compute. repeat split. Qed.
